@@ -39,7 +39,7 @@ MAX_KEEP = 3          # failing cases kept per bucket and worker
 class Part:
     def __init__(self, name, oracle, strategy=None, enum=None,
                  quick=(4, 100), thorough=(16, 1000), exhaustive=False,
-                 tmax_quick=120.0, tmax_thorough=1500.0, c_variant="plain",
+                 tmax_quick=300.0, tmax_thorough=1500.0, c_variant="plain",
                  preload_asan=False, tiers=("quick", "thorough"), fuzz=None):
         self.name = name
         self.oracle = oracle
